@@ -181,23 +181,43 @@ End Switch.
 
 (* ---------- what the translator reads from pkg/validation.go ---------- *)
 
-(* one row per `case` of the switch in ValidateFormat: the value of the Format
-   constant and a canonical rendering of what the case does with val *)
+(* one row per `case` of the switch in ValidateFormat, in source order: the value
+   of the Format constant and a canonical rendering of what the case does with val.
+   [format_does f] is the source text that [validate_format _ f] models. *)
+Definition all_formats : list format :=
+  [FDate; FDateTime; FUUID; FEmail; FHostname; FIPv4; FIPv6; FIP; FURI; FMAC; FCIDR; FRegexp; FJSON; FRFC1123].
+
+Definition format_name (f : format) : string :=
+  match f with
+  | FDate => "date" | FDateTime => "date-time" | FUUID => "uuid" | FEmail => "email"
+  | FHostname => "hostname" | FIPv4 => "ipv4" | FIPv6 => "ipv6" | FIP => "ip" | FURI => "uri"
+  | FMAC => "mac" | FCIDR => "cidr" | FRegexp => "regexp" | FJSON => "json" | FRFC1123 => "rfc1123"
+  end%string.
+
+Definition format_does (f : format) : string :=
+  match f with
+  | FDate => "err=time.Parse(time.DateOnly,val)"
+  | FDateTime => "err=time.Parse(time.RFC3339,val)"
+  | FUUID => "err=validateUUID(val)"
+  | FEmail => "err=mail.ParseAddress(val)"
+  | FHostname => "if !hostnameRegex.MatchString(val) err"
+  | FIPv4 => "ip:=net.ParseIP(val); if ip==nil err; if !ipv4Regex.MatchString(val) err"
+  | FIPv6 => "ip:=net.ParseIP(val); if ip==nil err; if ipv4Regex.MatchString(val) err"
+  | FIP => "ip:=net.ParseIP(val); if ip==nil err"
+  | FURI => "err=url.ParseRequestURI(val)"
+  | FMAC => "err=net.ParseMAC(val)"
+  | FCIDR => "err=net.ParseCIDR(val)"
+  | FRegexp => "err=regexp.Compile(val)"
+  | FJSON => "if !json.Valid([]byte(val)) err"
+  | FRFC1123 => "err=time.Parse(time.RFC1123,val)"
+  end%string.
+
 Definition expected_format_table : list (string * string) :=
-  [ ("date", "err=time.Parse(time.DateOnly,val)");
-    ("date-time", "err=time.Parse(time.RFC3339,val)");
-    ("uuid", "err=validateUUID(val)");
-    ("email", "err=mail.ParseAddress(val)");
-    ("hostname", "if !hostnameRegex.MatchString(val) err");
-    ("ipv4", "ip:=net.ParseIP(val); if ip==nil err; if !ipv4Regex.MatchString(val) err");
-    ("ipv6", "ip:=net.ParseIP(val); if ip==nil err; if ipv4Regex.MatchString(val) err");
-    ("ip", "ip:=net.ParseIP(val); if ip==nil err");
-    ("uri", "err=url.ParseRequestURI(val)");
-    ("mac", "err=net.ParseMAC(val)");
-    ("cidr", "err=net.ParseCIDR(val)");
-    ("regexp", "err=regexp.Compile(val)");
-    ("json", "if !json.Valid([]byte(val)) err");
-    ("rfc1123", "err=time.Parse(time.RFC1123,val)") ]%string.
+  map (fun f => (format_name f, format_does f)) all_formats.
+
+(* err set <-> rejected *)
+Definition expected_format_frame : list string :=
+  [ "var err error"; "switch f"; "if err!=nil return InvalidFormatError(name,val,f,err)"; "return nil" ]%string.
 
 (* validateUUID: google/uuid Parse, then the RFC 4122 variant test *)
 Definition expected_uuid_steps : list string :=
@@ -210,3 +230,6 @@ Definition expected_pattern_steps : list string :=
     "if !ok {"; "r=regexp.MustCompile(p)"; "knownPatternsLock.Lock()"; "knownPatterns[p]=r";
     "knownPatternsLock.Unlock()"; "}"; "if !r.MatchString(val) return InvalidPatternError(name,val,p)";
     "return nil" ]%string.
+
+Definition expected_pattern_decls : list string :=
+  [ "knownPatterns=make(map[string]*regexp.Regexp)"; "knownPatternsLock=&sync.RWMutex{}" ]%string.
